@@ -20,8 +20,14 @@ Modelled, not verified: `PyUnicode_FromKindAndData` (copies the units; for the
 single out-of-range unit (`unicode_char` -> `PyUnicode_New(1, ch)`) but does
 **not** check when `size >= 2` (`ucs4lib_find_max_char` saturates at 0x10FFFF)),
 `PyUnicode_AsUCS4` (copies `len` code points, plus a zero when `copy_null`).
+
+Every test and arithmetic expression of those loops is taken from
+`Generated/CharExprs.lean`, which translate/c15_exprs.py re-extracts from the C source on
+every check run; `Proofs/Utf16.lean` proves what each generated definition means.
 -/
+import CffiVerif.Generated.CharExprs
 namespace CffiVerif.Utf16
+open CffiVerif.Generated.CharExprs
 
 /-- Exception *types* the modelled code can raise.  Three are not Python exceptions:
 `outOfBounds` marks a read/write outside the modelled memory (undefined behaviour
@@ -61,10 +67,10 @@ def isHigh (u : Nat) : Bool := decide (0xD800 ≤ u) && decide (u ≤ 0xDBFF)
 /-- `0xDC00 <= u && u <= 0xDFFF` -/
 def isLow (u : Nat) : Bool := decide (0xDC00 ≤ u) && decide (u ≤ 0xDFFF)
 
-/-- number of `data[i] > 0xFFFF` -/
+/-- number of `data[i] > 0xFFFF` (`szAstral`) -/
 def countAstral : Str → Nat
   | [] => 0
-  | c :: cs => if c > 0xFFFF then countAstral cs + 1 else countAstral cs
+  | c :: cs => if szAstral c then countAstral cs + 1 else countAstral cs
 
 /-- `_my_PyUnicode_SizeAsChar16`: `result = length; for each data[i] > 0xFFFF: result++`. -/
 def size16 (s : Str) : Nat := s.length + countAstral s
@@ -76,11 +82,11 @@ def size32 (s : Str) : Nat := s.length
 def encode16 : Str → Except Err Units
   | [] => .ok []
   | c :: cs =>
-    if c > 0xFFFF then
-      if c > 0x10FFFF then .error .valueError
+    if encAstral c then                       -- ordinal > 0xFFFF
+      if encOutOfRange c then .error .valueError
       else
-        match encode16 cs with
-        | .ok r => .ok ((0xD800 ||| ((c - 0x10000) >>> 10)) :: (0xDC00 ||| ((c - 0x10000) &&& 0x3FF)) :: r)
+        match encode16 cs with                -- ordinal -= 0x10000; 0xD800 | (ordinal >> 10); 0xDC00 | (ordinal & 0x3FF)
+        | .ok r => .ok (encHigh (encSub c) :: encLow (encSub c) :: r)
         | .error e => .error e
     else
       match encode16 cs with
@@ -91,17 +97,17 @@ def encode16 : Str → Except Err Units
 `result`, i.e. the encoded units and, `if (result - start < resultlen)`, one zero. -/
 def asChar16 (s : Str) (resultlen : Nat) : Except Err Units :=
   match encode16 s with
-  | .ok u => .ok (if u.length < resultlen then u ++ [0] else u)
+  | .ok u => .ok (if encTerminator u.length s.length resultlen then u ++ [0] else u)
   | .error e => .error e
 
 /-- `_my_PyUnicode_AsChar32(unicode, result, resultlen)`:
 `copy_null = resultlen > len; PyUnicode_AsUCS4(unicode, result, resultlen, copy_null)`.
 `PyUnicode_AsUCS4` fails (SystemError) when the target is too small. -/
 def asChar32 (s : Str) (resultlen : Nat) : Except Err Units :=
-  let copyNull := decide (resultlen > s.length)
-  let targetlen := if copyNull then s.length + 1 else s.length
+  let copyNul := copyNull resultlen s.length
+  let targetlen := if copyNul then s.length + 1 else s.length
   if resultlen < targetlen then .error .systemError
-  else .ok (if copyNull then s ++ [0] else s)
+  else .ok (if copyNul then s ++ [0] else s)
 
 /-- The counting loop of `_my_PyUnicode_FromChar16`
 (`for i < size-1: if high(w[i]) && low(w[i+1]) count++`). -/
@@ -110,16 +116,15 @@ def countPairs : Units → Nat
   | a :: tl =>
     match tl with
     | [] => 0
-    | b :: _ => (if isHigh a && isLow b then 1 else 0) + countPairs tl
+    | b :: _ => (if decPairCount a b then 1 else 0) + countPairs tl
 
 /-- The slow path of `_my_PyUnicode_FromChar16`: joins each high surrogate that is
 directly followed by a low surrogate (and skips the latter). -/
 def decodeLoop : Units → Str
   | [] => []
-  | [a] => [a]
-  | a :: b :: rest =>
-    if isHigh a && isLow b then
-      ((((a &&& 0x3FF) <<< 10) ||| (b &&& 0x3FF)) + 0x10000) :: decodeLoop rest
+  | [a] => [a]                                -- last unit: `i < size - 1` fails, copied as it is
+  | a :: b :: rest =>                         -- `i < size - 1` holds: there is a next unit
+    if decHigh a true && decLow b then decJoin a b :: decodeLoop rest
     else a :: decodeLoop (b :: rest)
 
 /-- `_my_PyUnicode_FromChar16(w, size)`. -/
